@@ -739,11 +739,35 @@ def run_property(ctx):
                 pr["broken"] = pr["broken"] + p2["broken"]
                 pr["module"] = pr.get("module", spec.module) + " + " + em
         return ok_, logtxt_, pr, br
-    ok, logtxt, proof, pbroken = build_and_prove()
+    # (the verdict "these regenerated definitions do not carry the proofs" is remembered per regenerated text, so the other
+    #  checks of the same tree do not build the library twice)
+    import hashlib
+    consts_path = os.path.join(C.LEAN, "FFSM2", "Gen", "Consts.lean")
+    memo_path = os.path.join(C.CACHE, "translate_memo.json")
+    try:
+        memo = json.load(open(memo_path))
+    except Exception:
+        memo = {}
+    regen_hash = hashlib.sha256(open(consts_path, "rb").read()).hexdigest()[:24] if changed_groups else None
+    known_bad = bool(changed_groups) and memo.get(regen_hash) == "fallback"
+    if known_bad:
+        C.translate(force_fallback=changed_groups)
+        first_broken = [{"obligation": "(remembered from an earlier check of this tree) the regenerated definitions do not carry the proofs"}]
+        ok, logtxt, proof, pbroken = False, "", None, first_broken
+    else:
+        ok, logtxt, proof, pbroken = build_and_prove()
     if (not ok or pbroken) and changed_groups:
         # the regenerated definitions do not carry the proofs: keep the last validated ones and let the correspondence decide
-        C.translate(force_fallback=changed_groups)
+        if not known_bad:
+            C.translate(force_fallback=changed_groups)
         ok2, logtxt2, proof2, pbroken2 = build_and_prove()
+        if ok2 and not pbroken2 and not known_bad:
+            memo[regen_hash] = "fallback"
+            try:
+                os.makedirs(C.CACHE, exist_ok=True)
+                json.dump(memo, open(memo_path, "w"))
+            except Exception:
+                pass
         if ok2 and not pbroken2:
             ctx.extra["translated_constructs"]["model_keeps_last_validated_definition_of"] = changed_groups
             ctx.extra["translated_constructs"]["because"] = [b_["obligation"] for b_ in pbroken][:6]
